@@ -480,5 +480,54 @@ Proof.
   all: destruct s1; unfold imono, nl; cbn;
        repeat match goal with E : pc _ = _ |- _ => rewrite E; clear E end; cbn; repeat split; auto; try discriminate.
 Qed.
+
+Lemma oi_get_newinst o th i n k : k <> i -> oi_get (obs_pre cs o (th, ENewInst i n)) k = oi_get o k.
+Proof. intros Hne. unfold oi_get. cbn. rewrite get_set_other by congruence. reflexivity. Qed.
+
+Lemma vis_of_present s o x i : Rc cs s o -> get i (insts s) = Some x -> exists v, get (nm x) (viss s) = Some v /\ vis_of s (nm x) = v.
+Proof.
+  intros HRc Hx. destruct (rc_inst _ _ _ HRc i x Hx) as (xo & _ & _ & Hc & _).
+  destruct (rc_name _ _ _ HRc _ _ Hc) as (v & r & Hv & _). exists v. split; [exact Hv|]. unfold vis_of. now rewrite Hv.
+Qed.
+
+Lemma c_pend_step s o th e s' : Rc cs s o -> Inv s o -> pend (get_thread s th) = None -> step_core s th e = Some s' ->
+  own_ev e = false -> W_C03 (obs_pre cs o (th, e)) = false -> c_pend s' (obs_pre cs o (th, e)).
+Proof.
+  intros HRc HI Hpn H Hev HW th' k Hs.
+  destruct (step_core_thr _ _ _ _ H Hev) as [Hoth Hth].
+  assert (Hkeep : forall y, get k (insts s) = Some y -> o_stopreq (oi_get o k) = true -> badpc (pc y) = false ->
+            exists y', get k (insts s') = Some y' /\ o_stopreq (oi_get (obs_pre cs o (th, e)) k) = true /\ badpc (pc y') = false /\
+                       l_runctx y' = l_runctx y).
+  { intros y Hy Hst Hb. destruct (step_core_inst _ _ _ _ H Hev k y Hy) as (y' & Hy' & (_ & Er & _ & Hbad & _)).
+    exists y'. split; [exact Hy'|]. split.
+    - destruct e; try (apply obs_pre_stopreq_get; [exact I|exact Hst]).
+      rewrite oi_get_newinst; [exact Hst|]. intros ->. unfold step_core, step_reg in H. break_step H. unfold has in *. rewrite Hy in *. discriminate.
+    - split; [|exact Er]. destruct (badpc (pc y')); [rewrite Hbad in Hb by reflexivity; discriminate|reflexivity]. }
+  destruct (N.eq_dec th' th) as [->|Hne].
+  - destruct (Hth k Hs) as [Hsame|[(-> & Hsp & x & Hx & Hgu)|(s0 & -> & Hsp0 & Hsp & Hpd)]].
+    + rewrite Hsame in Hs |- *. destruct (iv_pend _ _ HI th k Hs) as (y & Hy & Hst & Hb & Hp).
+      destruct (Hkeep y Hy Hst Hb) as (y' & Hy' & Hst' & Hb' & Er). exists y'. repeat split; auto.
+      intros HE. right. rewrite Er. destruct (Hp HE) as [Hp'|Hp']; [congruence|exact Hp'].
+    + (* EStopPending *)
+      destruct (rc_inst _ _ _ HRc k x Hx) as (xo & Hxo & _).
+      assert (Hb : badpc (pc x) = false).
+      { destruct (iv_inst _ _ HI k x xo Hx Hxo) as [_ _ _ D _ _ _ I0]. unfold badpc. apply orb_false_iff. split.
+        - destruct (cpc (pc x)); [|reflexivity]. exfalso. specialize (D eq_refl).
+          unfold W_C03 in HW. cbn [obs_pre ev_inst fst snd] in HW. autorewrite with obsf in HW. cbn in HW.
+          unfold oi_get in HW. rewrite Hxo, D in HW. rewrite !orb_true_r in HW. discriminate.
+        - destruct (lcpc (pc x)); [|reflexivity]. exfalso.
+          destruct (vis_of_present _ _ _ _ HRc Hx) as (v & Hv & Ev). rewrite Ev in Hgu. rewrite (I0 eq_refl v Hv) in Hgu. discriminate. }
+      destruct (step_core_inst _ _ _ _ H Hev k x Hx) as (x' & Hx' & (_ & Er & _ & Hbad & _)).
+      exists x'. split; [exact Hx'|]. split.
+      * cbn [obs_pre ev_inst fst snd]. rewrite oi_get_upd, N.eqb_refl. cbn. rewrite Hxo. reflexivity.
+      * split; [destruct (badpc (pc x')); [rewrite Hbad in Hb by reflexivity; discriminate|reflexivity]|].
+        rewrite Hsp. discriminate.
+    + (* EProcEnd, stop branch *)
+      destruct (iv_pend _ _ HI th k (or_introl Hsp0)) as (y & Hy & Hst & Hb & Hp).
+      destruct (Hkeep y Hy Hst Hb) as (y' & Hy' & Hst' & Hb' & Er). exists y'. repeat split; auto.
+  - destruct (Hoth th' Hne) as [Es Ep]. rewrite Es in Hs |- *. rewrite Ep.
+    destruct (iv_pend _ _ HI th' k Hs) as (y & Hy & Hst & Hb & Hp).
+    destruct (Hkeep y Hy Hst Hb) as (y' & Hy' & Hst' & Hb' & Er). exists y'. repeat split; auto. rewrite Er. exact Hp.
+Qed.
 (*STOP*)
 End RelC03.
